@@ -35,7 +35,48 @@ func (n *namedOps) abs(file string) string {
 func (n *namedOps) ReadRemote(path string) ([]byte, error) {
 	privateOp("ReadRemote", n.abs(path))
 	n.s.Gate(n.who(), "ReadRemote", n.abs(path))
-	return n.o.ReadRemote(path)
+	// which lookup is this for?  Tile reads run on goroutines started by the lookup's goroutine.
+	th := threadOf()
+	if th == "?" {
+		th = threadOfParent()
+	}
+	data, err := n.o.ReadRemoteTl(path, threadTl(th, ""))
+	if f, ok := n.o.parseFile(path); ok && f.Kind == "lookup" && err == nil {
+		if _, hd, ok := n.o.w.ClassifyLookup(data); ok && (hd.Tl == "A" || hd.Tl == "B") {
+			threadTl(th, hd.Tl)
+		}
+	}
+	return data, err
+}
+
+var threadTlMap sync.Map // thread -> timeline of the lookup response it received last
+
+func threadTl(th, set string) string {
+	if set != "" {
+		threadTlMap.Store(th, set)
+		return set
+	}
+	if v, ok := threadTlMap.Load(th); ok {
+		return v.(string)
+	}
+	return ""
+}
+
+// threadOfParent: the thread of the goroutine that started this one ("created by ... in goroutine N")
+func threadOfParent() string {
+	buf := make([]byte, 8192)
+	n := runtime.Stack(buf, false)
+	s := string(buf[:n])
+	if i := strings.LastIndex(s, " in goroutine "); i >= 0 {
+		rest := s[i+len(" in goroutine "):]
+		if j := strings.IndexAny(rest, "\n "); j > 0 {
+			rest = rest[:j]
+		}
+		if t, ok := gidThread.Load(strings.TrimSpace(rest)); ok {
+			return t.(string)
+		}
+	}
+	return "?"
 }
 func (n *namedOps) ReadConfig(file string) ([]byte, error) {
 	privateOp("ReadConfig", n.abs(file))
@@ -153,7 +194,20 @@ type schedItem struct {
 	grow             string
 }
 
+// replaySchedule replays a schedule of the model into the real client.  When the code leaves the schedule (a
+// thread arrives at an operation the model does not predict for it) there are two natural ways to go on, and
+// a change of the code may need either to show: the stray thread waits until the schedule has nothing else to
+// do ("late"), or it runs on at once ("eager").  The late policy is tried first, the eager one if the first
+// run drifted and showed nothing.
 func replaySchedule(c *core.Case, in *behaviourIn) ([]core.Violation, bool) {
+	vs, nt, drifted := replayScheduleMode(c, in, false)
+	if drifted && len(vs) == 0 {
+		vs, nt, _ = replayScheduleMode(c, in, true)
+	}
+	return vs, nt
+}
+
+func replayScheduleMode(c *core.Case, in *behaviourIn, eager bool) ([]core.Violation, bool, bool) {
 	w := sumworld.New(in.H, in.Prefix, in.SizeA, in.SizeB)
 	ops := newScriptOps(w, in.Cfg0, in.Served)
 	s := sched.New("golang.org/x/mod/sumdb.", "worlds.(*namedOps)", "worlds.runLookups", "worlds.dispatchHook")
@@ -233,6 +287,7 @@ func replaySchedule(c *core.Case, in *behaviourIn) ([]core.Violation, bool) {
 		privateKeys[k] = true
 	}
 	takePrivateFound()
+	threadTlMap.Range(func(k, _ any) bool { threadTlMap.Delete(k); return true })
 	for t, keys := range perThread {
 		wg.Add(1)
 		go runLookups(&wg, s, in.ClientOf[t]+"/"+t, t, keys, privateKeys, clients[in.ClientOf[t]], w, func(k int, lines []string, err error) {
@@ -269,7 +324,7 @@ func replaySchedule(c *core.Case, in *behaviourIn) ([]core.Violation, bool) {
 				driftNote = "scheduler: schedule not completed within 20s; finished free-running"
 				goto done
 			case <-time.After(20 * time.Second):
-				return []core.Violation{{Sig: "c14:hang", What: "concurrent lookups against an honest server did not finish (20s gated + 20s free-running)"}}, true
+				return []core.Violation{{Sig: "c14:hang", What: "concurrent lookups against an honest server did not finish (20s gated + 20s free-running)"}}, true, true
 			}
 		}
 		if !s.Quiesce(2 * time.Second) {
@@ -305,6 +360,30 @@ func replaySchedule(c *core.Case, in *behaviourIn) ([]core.Violation, bool) {
 		}
 		if released {
 			continue
+		}
+		if eager {
+			// a goroutine at an operation that the rest of the schedule does not contain for its thread runs on at once
+			for _, p := range pend {
+				found := false
+				for j := i; j < len(items); j++ {
+					if items[j].client == p.Client && items[j].op == p.Op && items[j].file == p.File {
+						found = true
+						break
+					}
+				}
+				if !found {
+					drift++
+					if driftNote == "" {
+						driftNote = fmt.Sprintf("schedule step %d: %s is not in the rest of the schedule (eager)", i, p)
+					}
+					s.Release(p.ID)
+					released = true
+					break
+				}
+			}
+			if released {
+				continue
+			}
 		}
 		// a goroutine waiting at a hook point that the schedule does not have next for its thread: the code has a
 		// yield point where the model has none (or in another place).  Hook points do nothing visible, so the
@@ -406,6 +485,33 @@ done:
 	for _, k := range in.Skip {
 		skip[k] = true
 	}
+	forked := in.SizeB > 0
+	if forked {
+		// ---- observers (C13) for a split-view server: no two inconsistent signed trees are both accepted ----
+		ops.mu.Lock()
+		var accepted []sumworld.HeadLabel
+		for _, o := range obs {
+			if o.err == nil && !skip[o.key] {
+				if hd, ok := ops.lastLookupHead[o.key]; ok && hd.Kind == "good" {
+					accepted = append(accepted, hd)
+				}
+			}
+		}
+		for i := range accepted {
+			for j := i + 1; j < len(accepted); j++ {
+				if !(w.PrefixOf(accepted[i], accepted[j]) || w.PrefixOf(accepted[j], accepted[i])) {
+					vs = append(vs, core.Violation{Sig: "c13:two-timelines-accepted", What: fmt.Sprintf("concurrent lookups of one client both succeeded although their signed tree heads %v and %v are mutually inconsistent", accepted[i], accepted[j])})
+				}
+			}
+		}
+		for _, v := range ops.viol {
+			if strings.HasPrefix(v.Sig, "c13:") || strings.HasPrefix(v.Sig, "c01:") {
+				vs = append(vs, v)
+			}
+		}
+		ops.mu.Unlock()
+		return vs, true, drift > 0
+	}
 	for _, o := range obs {
 		path, vers := lookupArgs(w, o.key)
 		if skip[o.key] {
@@ -448,12 +554,14 @@ done:
 	}
 	for _, v := range ops.viol {
 		if v.Sig == "c13:config-not-extension" || v.Sig == "c01:config-unauthentic" || v.Sig == "c13:two-timelines" {
+			// the stored head moving anywhere but forward is C13's clause and C14's ("never regresses"): reported to both
+			vs = append(vs, v)
 			v.Sig = "c14:config-regress"
 			vs = append(vs, v)
 		}
 	}
 	ops.mu.Unlock()
-	return vs, true
+	return vs, true, drift > 0
 }
 
 func hookPoint(c *core.Case, h histOp, raw *struct {
